@@ -117,6 +117,13 @@ fn cli(path_or_cmd: &[String], args: &[String], dashdash_first: bool) -> Vec<Str
         v.push("--".to_string());
         v.extend_from_slice(path_or_cmd);
         v.extend_from_slice(args);
+    } else if needs && !dashdash_first && args.len() % 2 == 0 {
+        // `--` only where it becomes necessary: right before the first dash-prefixed argument
+        v.extend_from_slice(path_or_cmd);
+        let at = args.iter().position(|a| a.starts_with('-')).unwrap_or(0);
+        v.extend_from_slice(&args[..at]);
+        v.push("--".to_string());
+        v.extend_from_slice(&args[at..]);
     } else {
         v.extend_from_slice(path_or_cmd);
         if needs {
